@@ -25,6 +25,7 @@ const (
 )
 
 func rulesC09(c *Ctx) {
+	c09Batch(c)
 	c.Explain = append(c.Explain,
 		"C09 (only authentic, correctly sequenced transactions execute, once) — decided: (a) decodeTx returns success only through: size guard (when a limit is configured) before decoding, envelope decode✓, SignedTransaction.Open✓ (= signature verification under transaction.SignatureContext, created WithChainSeparation, then body decode of exactly the signed blob), SanityCheck✓; the returned transaction is the one filled by Open; executeTx sets the signer from the verified envelope after decodeTx✓ and passes that transaction on; SetTxSigner is called only there and in simulation; (b) ExecuteTx is reachable only through AuthenticateTx✓ (or no handler / critical method; the set of critical methods is empty); (c) in AuthenticateAndPayFees every state write is dominated by the nonce-equality guard, the nonce is incremented exactly once and stored; writers of the nonce are confined; (d) PublicKey.Verify can return true only via the ed25519 verifier over PrepareSignerMessage(context,message) with strict small-order options; signature contexts are constant, pairwise distinct and prefix-free, none contains the chain separator; the chain context is set-once.",
 		"NOT decided: cryptographic soundness of ed25519/SHA-512/256, nonce monotonicity across restarts/state sync, CometBFT-level replay protection.")
@@ -500,4 +501,91 @@ func variadicElems(v ssa.Value) []ssa.Value {
 		}
 	}
 	return out
+}
+
+// c09Batch — the batch verifier's slot correspondence grows only with the underlying verifier.
+// BatchVerifier.Verify copies the underlying ed25519 batch verifier's per-signature verdicts into the per-entry error
+// vector through a correspondence "verifier slot → result slot". Entries that are rejected before they reach the
+// underlying verifier (malformed signature, blacklisted key, context error) occupy a result slot but no verifier slot.
+// Every write to the correspondence (any BatchVerifier field other than the error vector, the error flag and the
+// underlying verifier) made while an entry is added must therefore be dominated by "this entry has no error", and an
+// error-free entry is pushed only after it was handed to the underlying verifier.
+func c09Batch(c *Ctx) {
+	const rule = "C09.batch"
+	const pk = "common/crypto/signature"
+	add := c.needFn(rule, pk+".(*BatchVerifier).Add")
+	if add == nil {
+		return
+	}
+	c.Analysed[fname(add)] = true
+	n, bad := 0, ""
+	for _, f := range append([]*ssa.Function{add}, anonFuncs(add)...) {
+		for _, b := range f.Blocks {
+			for _, in := range b.Instrs {
+				var target ssa.Value
+				switch x := in.(type) {
+				case *ssa.MapUpdate:
+					target = x.Map
+				case *ssa.Store:
+					target = x.Addr
+				default:
+					continue
+				}
+				s := vstr(target)
+				fld := ""
+				for _, cand := range []string{".resultsMap", ".resultsIdx"} {
+					if strings.HasSuffix(s, cand) {
+						fld = cand
+					}
+				}
+				if fld == "" {
+					// any other field of the verifier that is not results / hasError / verifier
+					if i := strings.LastIndex(s, "v."); i < 0 || !strings.Contains(s, "BatchVerifier") && !strings.Contains(s, ":v.") {
+						continue
+					}
+					if strings.HasSuffix(s, ".results") || strings.HasSuffix(s, ".hasError") || strings.HasSuffix(s, ".verifier") || !strings.Contains(s, ":v.") {
+						continue
+					}
+				}
+				n++
+				ok := false
+				for _, h := range heldCondVals(in) {
+					bo, isBO := h.Cond.(*ssa.BinOp)
+					if !isBO {
+						continue
+					}
+					isNilTest := isNilConst(bo.X) || isNilConst(bo.Y)
+					if isNilTest && ((bo.Op.String() == "==" && h.Pol) || (bo.Op.String() == "!=" && !h.Pol)) && (isErrorType(bo.X.Type()) || isErrorType(bo.Y.Type())) {
+						ok = true
+					}
+				}
+				if !ok {
+					bad = c.P.InstrPos(in)
+				}
+			}
+		}
+	}
+	site := c.P.Pos(add.Pos())
+	if bad != "" {
+		site = bad
+	}
+	c.Check(n > 0 && bad == "", rule, fname(add)+":verifier-slot correspondence recorded only for entries without an error", site, "every write to the slot correspondence while an entry is added is dominated by err == nil", "the correspondence between the underlying verifier's slots and the result slots is extended for an entry that was rejected before it reached the underlying verifier: the verdicts of later entries are written to the wrong result slots, and a transaction with a bad signature is reported as valid")
+	// an error-free push follows the hand-over to the underlying verifier
+	var okPush []ssa.Instruction
+	for _, call := range callsIn(add) {
+		if mc, isMC := call.Common().Value.(*ssa.MakeClosure); isMC && len(call.Common().Args) == 1 && isNilConst(call.Common().Args[0]) {
+			_ = mc
+			okPush = append(okPush, call)
+		}
+	}
+	hand := union("AddWithOptions", CallsTo(add, "", "github.com/oasisprotocol/curve25519-voi/primitives/ed25519/extra/cache.(*Verifier).AddWithOptions", ""))
+	if hand.Empty() {
+		for _, call := range callsIn(add) {
+			if strings.HasSuffix(calleeName(call), ".AddWithOptions") || strings.HasSuffix(calleeName(call), "BatchVerifier).Add") && !strings.Contains(calleeName(call), pk) {
+				hand.Ins = append(hand.Ins, call)
+			}
+		}
+		hand.Name, hand.Fn = "AddWithOptions", add
+	}
+	c.MustPrecede(rule, add, hand, Ev{Name: "pushResult(nil)", Fn: add, Ins: okPush}, "an entry is recorded as error-free only after it was handed to the underlying batch verifier")
 }
